@@ -382,8 +382,18 @@ func runCount(c countCase, r *pb.Rec) error {
 		gen.AddRule(ru[0], ru[1], ru[2], ru[3])
 	}
 	boundary := false
+	// the same id value held in different memory: as a prefix / an infix of larger strings with other bytes around it
+	// (Generate is a function of the id's value and the elapsed time, not of where the string happens to live)
+	idIn1 := (c.ID + "\xff\xfe\xfd\xfc\xfb")[:len(c.ID)]
+	idIn2 := ("ABCDEFG" + c.ID + "\x01\x02\x03\x04\x05\x06\x07")[7 : 7+len(c.ID)]
 	for _, d := range c.Diffs {
 		a, b := gen.Generate(c.ID, d), gen.Generate(c.ID, d+1)
+		if a1, a2 := gen.Generate(idIn1, d), gen.Generate(idIn2, d); a1 != a || a2 != a {
+			return fmt.Errorf("Generate(%q,%d) = %d, but %d and %d for the same id value held inside larger strings", c.ID, d, a, a1, a2)
+		}
+		if b2 := gen.Generate(idIn2, d+1); a > b2 {
+			return fmt.Errorf("Generate(%q,%d)=%d > Generate(the same id in other memory,%d)=%d", c.ID, d, a, d+1, b2)
+		}
 		if a > b {
 			return fmt.Errorf("Generate(%q,%d)=%d > Generate(..,%d)=%d", c.ID, d, a, d+1, b)
 		}
@@ -459,8 +469,8 @@ func runDef(c defCase, r *pb.Rec) error {
 }
 
 func init() {
-	pb.Register("id_numerals", pb.Options{Base: 10000, Rule: "IDs from boundaries (32^k±1, 2^63-1) and uniform over bit-lengths; non-trivial = id >= 32 (multi-digit)"}, genID, runID)
-	pb.Register("parse_base32", pb.Options{Base: 15000, Required: []string{"one illegal byte >= 32", "valid string"}, Rule: "byte strings of length 0..14 mixing alphabet digits, look-alike and arbitrary bytes; non-trivial = exactly one illegal byte and it is >= 32"}, genParse, runParse)
+	pb.Register("id_numerals", pb.Options{Twins: 3, Base: 10000, Rule: "IDs from boundaries (32^k±1, 2^63-1) and uniform over bit-lengths; non-trivial = id >= 32 (multi-digit)"}, genID, runID)
+	pb.Register("parse_base32", pb.Options{Twins: 3, Base: 15000, Required: []string{"one illegal byte >= 32", "valid string"}, Rule: "byte strings of length 0..14 mixing alphabet digits, look-alike and arbitrary bytes; non-trivial = exactly one illegal byte and it is >= 32"}, genParse, runParse)
 	pb.RegisterReplay("parse_base32_substitution", func(raw json.RawMessage) error {
 		var c parseCase
 		if err := json.Unmarshal(raw, &c); err != nil {
@@ -469,7 +479,7 @@ func init() {
 		return runParse(c, &pb.Rec{})
 	})
 	pb.Register("idgen", pb.Options{Base: 150, Required: []string{"randBit<=1", "randBit>22", "entropy source fails (fallback path)", "elapsed beyond the 41-bit time field: non-negativity only"}, Rule: "randBit -3..40, start time up to 60 years ago and at 2^41 ms -100 s (all clauses) / beyond 2^41 ms up to 285 years (non-negativity only), 1-4 ids with clock-bracketed >=1ms gaps; non-trivial = non-default randBit and non-zero elapsed time"}, genIdgen, runIdgen)
-	pb.Register("strgen", pb.Options{Base: 8000, Required: []string{"charset size not a power of two", "multi-byte charset", "n=0"}, Rule: "duplicate-free charsets of sizes around powers of two (1..70 runes, ASCII or mixed width), n 0..200, PRNG source optionally preceded by adversarial words; non-trivial = n>0 and charset size not a power of two"}, genStrgen, runStrgen)
+	pb.Register("strgen", pb.Options{Twins: 3, Base: 8000, Required: []string{"charset size not a power of two", "multi-byte charset", "n=0"}, Rule: "duplicate-free charsets of sizes around powers of two (1..70 runes, ASCII or mixed width), n 0..200, PRNG source optionally preceded by adversarial words; non-trivial = n>0 and charset size not a power of two"}, genStrgen, runStrgen)
 	pb.Register("package_defaults", pb.Options{Base: 3000, Required: []string{"default charset replaced"}, Rule: "randz.String(n) with the default and replaced default charsets (SetStrGeneratorCharSet), randz.Id() bracketed by clock reads against the default start time, Base32 round trip of generated ids; non-trivial = n > 0"}, genDef, runDef)
-	pb.Register("countgen", pb.Options{Base: 8000, Required: []string{"elapsed on a rule boundary"}, Rule: "1-5 rules with positive parameters, elapsed times on every rule boundary ±2 and drawn in between; non-trivial = >= 2 rules and a boundary probed"}, genCount, runCount)
+	pb.Register("countgen", pb.Options{Twins: 3, Base: 8000, Required: []string{"elapsed on a rule boundary"}, Rule: "1-5 rules with positive parameters, elapsed times on every rule boundary ±2 and drawn in between; non-trivial = >= 2 rules and a boundary probed"}, genCount, runCount)
 }
